@@ -563,6 +563,28 @@ def shaky_observables(world, obj, base, probes):
         if type(e).__name__ == "HarnessTimeout":
             raise
         out = set()
+    # ... arccos at +-1 has an unbounded derivative: with two neighbouring faces coplanar to
+    # within rounding, one ulp in a normal moves the dihedral angle by 1.5e-8, in jumps that a
+    # perturbation test may or may not hit - decided analytically
+    try:
+        core = history.target_of(obj) or obj
+        if hasattr(core, "neighbors") and hasattr(core, "normals"):
+            nrm = np.asarray(core.normals, float)
+            flat = False
+            for i, nb in enumerate(core.neighbors):
+                for j in nb:
+                    if abs(float(np.dot(nrm[i], nrm[int(j)]))) > 1.0 - 1e-12:
+                        flat = True
+                        break
+                if flat:
+                    break
+            if flat:
+                out |= {"mean_curvature", "asphericity", "tau", "get_dihedral"}
+                if core is not obj:
+                    out |= {"volume", "surface_area", "iq", "polyhedron"}
+    except Exception as e:  # noqa: BLE001
+        if type(e).__name__ == "HarnessTimeout":
+            raise
     # ... and exactly the perturbation the property allows: a copy of the object itself moved
     # away and back through the public centroid setter, against an unmoved copy
     try:
@@ -571,9 +593,11 @@ def shaky_observables(world, obj, base, probes):
             b = copy.deepcopy(obj)
             with warnings.catch_warnings():
                 warnings.simplefilter("ignore")
-                c = np.array(b.centroid, dtype=float)
-                b.centroid = c + history.extent(obj) * np.array([1.0, -0.7, 0.4])[:len(c)]
-                b.centroid = c
+                # (a rounded shape is moved through its core: its own setter refuses)
+                mv = history.target_of(b) or b
+                c = np.array(mv.centroid, dtype=float)
+                mv.centroid = c + history.extent(obj) * np.array([1.0, -0.7, 0.4])[:len(c)]
+                mv.centroid = c
             sa = observe.snapshot(a, probes)
             sb = observe.snapshot(b, probes)
         out |= {k for k, _w in observe.diff_unchanged(sa, sb, nbase=probes["n_base"])}
@@ -837,11 +861,12 @@ def execute(spec, world):
             d = observe.diff_unchanged(snap0, snap1, nbase=probes["n_base"],
                                        skip=skip0 | skip1 | skip_q, ops=si - k0 + 1)
             ref_snap = snap0
-        if d and not observe.geometry_bitwise_same(ref_snap, snap1) and \
-                hasattr(obj, "vertices"):
-            # the operation moved the shape and moved it back (geometry changed in the last
-            # digits, which the property allows): an observable that amplifies last-digit
-            # noise is not evidence of a side effect (conditioning guard as in C03)
+        if d and hasattr(obj, "vertices"):
+            # an observable that amplifies last-digit noise is not evidence of a side effect
+            # (conditioning guard as in C03).  A mover may restore the vertices bit for bit
+            # and leave derived stored state an ulp off, so the guard does not look at the
+            # geometry; an operation that is *not* a mover is still held to the strict rule
+            # below, where nothing is excused.
             shaky = shaky_observables(world, obj, base, probes)
             kept = [x for x in d if x[0] not in shaky]
             C["ill_conditioned_skips"] += len(d) - len(kept)
